@@ -270,8 +270,8 @@ inductive Pre (ctx : Ctx) (ic isc : List (String × Ty)) : Skel → Skel → Pro
   | svarInc (n : String) (T : Ty) : ctx.svars.lookup n = none → isc.lookup n = some T →
       Pre ctx ic isc (.svar n none) (.svar n (some T))
   | constAnn (n : String) (A : Ty) : A.NoInt → Pre ctx ic isc (.const n (some A)) (.const n (some A))
-  | constDef (n : String) (D : Ty) (m : List (String × Ty)) : ctx.defs.lookup n = some D → D.NoInt →
-      Pre ctx ic isc (.const n none) (.const n (some (D.instS m)))
+  | constDef (n : String) (D : Ty) (m : List (String × Ty)) : ctx.sig.lookup n = none → ctx.defs.lookup n = some D →
+      D.NoInt → Pre ctx ic isc (.const n none) (.const n (some (D.instS m)))
   | constSig (n : String) (S : Ty) (m : List (String × Ty)) : ctx.sig.lookup n = some S → S.hasStvar = false →
       Pre ctx ic isc (.const n none) (.const n (some (S.inst m)))
   | comb {f f' a a' : Skel} : Pre ctx ic isc f f' → Pre ctx ic isc a a' → Pre ctx ic isc (.comb f a) (.comb f' a')
@@ -292,7 +292,7 @@ theorem Pre.mono {ctx : Ctx} {ic isc ic' isc' : List (String × Ty)} {t t' : Ske
   | svarDecl n T h hn => exact .svarDecl n T h hn
   | svarInc n T h hh => exact .svarInc n T h (h2 n T hh)
   | constAnn n A h => exact .constAnn n A h
-  | constDef n D m h hn => exact .constDef n D m h hn
+  | constDef n D m hs h hn => exact .constDef n D m hs h hn
   | constSig n S m h hs => exact .constSig n S m h hs
   | comb _ _ ih1 ih2 => exact .comb ih1 ih2
   | absAnn x A h _ ih => exact .absAnn x A h ih
